@@ -31,6 +31,32 @@ def _names(e):
     return {n.id for n in ast.walk(e) if isinstance(n, ast.Name)}
 
 
+def _perm_producer(st):
+    """(index variable, ids expression, problem or None) if `st` computes the sorting index list."""
+    if not isinstance(st, ast.Assign) or not isinstance(st.value, ast.Call):
+        return None, None, None
+    nm = call_name(st.value) or ""
+    tgt = st.targets[0]
+    if nm.endswith("argsort") and isinstance(tgt, ast.Name):
+        kind = kwarg_(st.value, "kind")
+        return tgt.id, st.value.args[0], None
+    if nm.endswith("lexsort") and isinstance(tgt, ast.Name):
+        return tgt.id, st.value.args[0], None
+    if nm == "sorted" and isinstance(tgt, ast.Name) and st.value.args and "range(len(" in ast.unparse(st.value.args[0]):
+        return tgt.id, st.value.args[0], None
+    if nm.endswith("unique") and isinstance(tgt, ast.Tuple) and any(k.arg == "return_index" for k in st.value.keywords):
+        names = [e.id for e in tgt.elts if isinstance(e, ast.Name)]
+        return (names[1] if len(names) > 1 else names[0]), st.value.args[0], "np.unique(..., return_index=True) (first occurrence of each distinct id only)"
+    return None, None, None
+
+
+def kwarg_(call, name):
+    for k in call.keywords:
+        if k.arg == name:
+            return k.value
+    return None
+
+
 @rule(
     "IDX-SPACE",
     ["C06"],
@@ -55,8 +81,9 @@ def idx_space(repo, res):
     ilists = {}
     perm_var = None
     for st in lp.body:
-        if isinstance(st, ast.Assign) and isinstance(st.value, ast.Call) and (call_name(st.value) or "").endswith("argsort"):
-            perm_var = st.targets[0].id
+        pv, _src, _why = _perm_producer(st)
+        if pv:
+            perm_var = pv
     for st in lp.body:
         if isinstance(st, ast.AugAssign) and isinstance(st.op, ast.Add) and isinstance(st.target, ast.Name) and isinstance(st.value, ast.ListComp):
             ilists[st.target.id] = st
@@ -162,12 +189,19 @@ def perm_consistent(repo, res):
     tvar = lp.target.id
     perm = None
     ids_src = None
+    bad_producer = None
     for st in lp.body:
-        if isinstance(st, ast.Assign) and isinstance(st.value, ast.Call) and (call_name(st.value) or "").endswith("argsort"):
-            perm = st.targets[0].id
-            ids_src = st.value.args[0]
+        pv, src_, why = _perm_producer(st)
+        if pv:
+            perm, ids_src = pv, src_
+            bad_producer = (why, st) if why else None
     if perm is None:
-        raise AnalysisError("integral_data: argsort not found")
+        raise AnalysisError("integral_data: no index list sorting the ids found (argsort / sorted(range(len(ids))) / unique)")
+    key = f"{f.key}:index-list-is-a-permutation"
+    res.ob(key)
+    if bad_producer:
+        res.fail(key, f"the index list `{perm}` comes from {bad_producer[0]}: it is not a permutation of all integrals of the type, so when "
+                 "several integral groups share a subdomain id (dx((1,2)) + dx(2, degree=4)) kernels are dropped from the form", m.line(bad_producer[1]))
     sl = Slicer(f.node)
     key = f"{f.key}:argsort-of-ids"
     res.ob(key)
@@ -403,11 +437,13 @@ def _slot_sources(gen_func, dict_names=("d", "code")):
         if isinstance(n, ast.Assign) and isinstance(n.targets[0], ast.Subscript) and isinstance(n.targets[0].value, ast.Name) \
                 and n.targets[0].value.id in dict_names and isinstance(n.targets[0].slice, ast.Constant):
             slot = n.targets[0].slice.value
-            chains = {c for c in sl.attr_chains(n.value) if c.startswith(("ir.", "integrals.", "points", "options"))}
+            chains = {c for c in sl.attr_chains(n.value) if c.startswith(("ir.", "integrals.", "options"))}
             names = sl.names(n.value)
             out.setdefault(slot, set()).update(chains)
             if "points" in names:
                 out[slot].add("points")
+            if "domain" in names and "domain" in gen_func.params:
+                out[slot].add("domain")
             if "integrals" in names:
                 out[slot].update(c for c in sl.attr_chains(n.value) if c.startswith("integrals."))
     # keyword arguments of a direct factory.format(...) call
